@@ -19,3 +19,12 @@ package profile
 //@ func (p *Profile) ServerPort() (r int)
 //@   requires nonnil: p != nil
 //@   pure
+
+// Every setting of the Demon block is optional, and its users (profile package sent at login, listener
+// start-up, pipe name template) read it without a nil test: after a successful load the block is
+// there, empty if the file had none. (The decoder itself is reflection-driven library code, outside
+// the verifier: whatever it left in p.Config is unknown here.)
+//@ func (p *Profile) SetProfile(path string, def bool) (err error)
+//@   requires nonnil: p != nil
+//@   modifies *
+//@   ensures demon: err == nil ==> p.Config.Demon != nil
